@@ -244,7 +244,7 @@ RandomAccessIterator partition(RandomAccessIterator first,
   typedef partition_helper<RandomAccessIterator, Predicate> P;
   typename P::partition_helper_state s(first, last, pred);
   on_each(P(&s));
-  if (s.rfirst == first && s.rlast == last) { // perfect !
+  if (s.rfirst == last && s.rlast == first) { // perfect: no leftover span recorded
     // abort();
     return s.first;
   }
